@@ -205,12 +205,10 @@ func vRepairSnapshotsC34(e *vEnv) (vOut, error) {
 // evalRepairC34 runs damage + repair on a clone and checks every part of the oracle.
 func (r *vRepoC03) evalRepairC34(muts []vMutC03) (classes []string, nontrivial bool, violation string) {
 	s := r.e.store.Clone()
-	var applied []vMutC03
 	for _, m := range muts {
-		if vApplyC03(s, m) {
-			applied = append(applied, m)
-		}
+		vApplyC03(s, m)
 	}
+	applied := r.effective(s, muts)
 	if len(applied) == 0 {
 		return []string{"noop"}, false, ""
 	}
@@ -270,7 +268,7 @@ func (r *vRepoC03) evalRepairC34(muts []vMutC03) (classes []string, nontrivial b
 			pbs := repo.LookupBlob(h)
 			for _, pb := range pbs {
 				if plan.damaged[pb.PackID().String()] {
-					return fmt.Errorf("index still lists %v in removed pack %s", h, pb.PackID().Str())
+					return fmt.Errorf("index still lists %v in removed pack %s", h, pb.PackID().String()[:8])
 				}
 			}
 			if plan.avail[h] {
